@@ -223,7 +223,7 @@ fn json_group<W: AsRef<[u64]>>(trj: &mut Trace, tri: &mut Trace, doc: &Doc, id: 
     let starts = doc.flat.iter().map(|f| f.s).collect();
     tri.emit(build_ev(idx, "json", variant, &doc.text, Some(starts), &ones, &ls, nodes_ok, false));
     let mut r2 = Rng::new(seed_q ^ 0x5555);
-    let mut q = Q { tr: tri };
+    let mut q = Q { tr: tri, wrap: false };
     queries(&mut q, &mut r2, idx, &doc.text, &ones, &ls, false, nodes_ok, doc.text.len() <= 120);
 }
 
